@@ -214,6 +214,7 @@ async fn run_tcp_system_inner(plan: &Plan, atomic_handshake: bool, via_port: u16
                 eprintln!("MID at {:.3} s: tasks {:?} idle {:?} sockets {:?} idle {:?}", now_ns() as f64 / 1e9, run.mid_tasks, run.idle_tasks, run.mid_sockets, run.idle_sockets);
                 for (ix, o) in obs.iter().enumerate() {
                     let o = o.lock().unwrap();
+                    eprintln!("  flow {ix}: app fin {:?} first write {:?} target recv log {:?} app recv log {:?}", o.app.fin_ns.map(|x| x as f64 / 1e9), o.app.first_write_ns.map(|x| x as f64 / 1e9), o.target.recv_log.iter().map(|(t, n)| (*t as f64 / 1e9, *n)).collect::<Vec<_>>().iter().rev().take(4).collect::<Vec<_>>(), o.app.recv_log.iter().rev().take(2).collect::<Vec<_>>());
                     eprintln!("  flow {ix}: app end {:?} at {:.3} closed {:?}; target end {:?} at {:.3} closed {:?} accepts {}", o.app.end, o.app.end_ns as f64 / 1e9, o.app.closed_ns.map(|x| x as f64 / 1e9), o.target.end, o.target.end_ns as f64 / 1e9, o.target.closed_ns.map(|x| x as f64 / 1e9), o.target_accepts);
                 }
                 for s in 0..60 {
